@@ -23,6 +23,7 @@ RULE = ('(a) grid: index read/assign/op-assign on int/byte/bool/string arrays as
         'programs (nonlocal_preempt). Word sizes 2,3,4. non-trivial = the model predicts a fault, or the operand is within 2 of a boundary; '
         'distinct by hash of (source, args, word)')
 ASSUMPTIONS = common.ISA_ASSUMPTIONS
+REQUIRED_HIDC_FUNCTIONS = ['codegen/generator:CodeGen.check_index', 'codegen/generator:CodeGen.arith_op_reg_arg']     # M-COV: deciding code never entered => inconclusive
 MIN_NONTRIVIAL = {'quick': 3000, 'thorough': 8000}
 MAX_STEPS = 300_000
 
